@@ -1,433 +1,1134 @@
 """C11 — Semaphore (lockset, guarded take, notify kind) and the two thread barriers
-(arrival / release ordering, RMW decisions, twin agreement)."""
-from engine import ir, dtable, match, sync, mustfact, cfg as cfgm
+(arrival / release ordering, RMW decisions, twin agreement).
+
+Every verdict "violated" in this file is a concrete counterexample:
+  * lock-state dataflow (engine/sync.py) showing a path on which mutex_ is not held at an access - and only if every
+    operation on the mutex / its guards in that function is of a recognised kind (closed world), otherwise "cannot decide";
+  * an evaluation of the member functions themselves (engine/skel.py) on a small model: the Semaphore functions on a grid
+    of (value_, delta, slack) with an adversarial environment at every point where mutex_ is released (cv wait, unlock/lock),
+    the barriers as one to three simulated threads that run one after the other and hand over exactly where a thread blocks
+    (cv_.wait / the spin on the generation counter).  The evidence is the schedule and the values.
+Fields are found by their type, not by their name.
+Nothing is concluded from the shape of the code: statement order, names of locals, helper functions, loop forms, operand
+order are invisible to the evaluation.  A construct the evaluation does not understand (unknown call that receives the
+object, unknown atomic operation, data-dependent branch) raises Undecidable (exit 2)."""
+import os
+
+from engine import ir, dtable, match, sync, skel
 from engine.ir import kids, strip_casts, const_int, ref_of, walk
-from rules.c10 import field_writes
 
 SEM = "tlx::Semaphore"
 BM = "tlx::ThreadBarrierMutex"
 BS = "tlx::ThreadBarrierSpin"
 ORDER = {0: "relaxed", 1: "consume", 2: "acquire", 3: "release", 4: "acq_rel", 5: "seq_cst"}
+M64 = 1 << 64
+ACTION = ("action",)
+GUARDS = sync.GUARDS
+
+
+# ------------------------------------------------------------------------------------------------ evaluation machinery
+class Counterexample(Exception):
+    """a concrete run of the model that breaks the rule"""
+    def __init__(self, sig, msg, loc):
+        Exception.__init__(self, msg)
+        self.sig, self.msg, self.loc = sig, msg, loc
+
+
+class StopRun(Exception):
+    """the schedule under evaluation has shown what it was made for"""
+
+
+class AbortThread(Exception):
+    """the simulated thread is preempted for good at this point (its effects so far stay)"""
+
+
+def _is_shared(k):
+    if isinstance(k, tuple) and len(k) > 1 and k[0] == "elem":
+        return _is_shared(k[1])
+    return isinstance(k, tuple) and len(k) > 0 and k[0] in ("field", "mem", "meta")
+
+
+class LayerEnv(dict):
+    """locals of one simulated thread on top of the object's fields shared by all threads"""
+    serial = 0
+
+    def __init__(self, shared):
+        dict.__init__(self)
+        self.shared = shared
+
+    def __contains__(self, k):
+        return (k in self.shared) if _is_shared(k) else dict.__contains__(self, k)
+
+    def __getitem__(self, k):
+        return self.shared[k] if _is_shared(k) else dict.__getitem__(self, k)
+
+    def __setitem__(self, k, v):
+        if _is_shared(k):
+            self.shared[k] = v
+        else:
+            dict.__setitem__(self, k, v)
+
+    def get(self, k, d=None):
+        return self[k] if k in self else d
+
+    def items(self):
+        # only engine/skel.py's "same state at the loop head again" test asks for this; that test compares the state before
+        # a do-while's first condition with the state before its second body and takes an idle spin for a livelock.  The
+        # models bound their loops themselves (spin limit, scripts that end), so every snapshot is made distinct.
+        LayerEnv.serial += 1
+        return list(dict.items(self)) + list(self.shared.items()) + [(("meta", "snapshot"), LayerEnv.serial)]
+
+
+def unsigned_ty(e):
+    t = (e.get("cty") or e.get("ty") or "") if e else ""
+    return t.startswith("unsigned") or t in ("size_t", "std::size_t")
+
+
+def is_guard_ty(t):
+    t = (t or "").strip()
+    if t.startswith("const "):
+        t = t[6:]
+    return any(t.startswith(p) for p in GUARDS)
+
+
+def _uint(t):
+    return t.strip() in ("unsigned long", "size_t", "std::size_t", "unsigned int", "unsigned long long", "unsigned")
+
+
+def _const_uint(t):
+    return t.startswith("const ") and _uint(t[6:])
+
+
+def _uint_pair(t):
+    return t.endswith("[2]") and _uint(t[:-3])
+
+
+def _mutex(t):
+    return t.endswith("mutex")
+
+
+def _atomic_uint(t):
+    return "atomic<" in t and _uint(t[t.index("atomic<") + 7:].rstrip("> "))
+
+
+def field_roles(tu, record, spec):
+    """the fields of the class by what they are (type), not by what they are called: {role: name}; a role that does not
+    match exactly one field is not understood"""
+    fields = tu.record(record)["fields"]
+    out = {}
+    for role, (pred, n) in spec.items():
+        xs = [f["name"] for f in fields if pred((f.get("ty") or "").strip())]
+        if len(xs) != n:
+            raise dtable.Undecidable("%s: %d fields can be the %s (expected %d): layout of the class not understood" % (record, len(xs), role, n))
+        out[role] = xs[0] if n == 1 else tuple(xs)
+    return out
+
+
+def renamed(msg, names):
+    """the messages speak of the fields by the names they have in tlx; a renamed field is shown under its new name"""
+    for std, now in names.items():
+        if std != now:
+            msg = msg.replace(std, now)
+    return msg
+
+
+class Sim(skel.Skel):
+    """one thread of control: the integer skeleton of a member function on the small model; unsigned arithmetic wraps"""
+    def __init__(self, fn, tu, world, shared):
+        skel.Skel.__init__(self, fn, env=None, unknown=world.unknown, event=world.event, tu=tu)
+        self.env = LayerEnv(shared)
+        self.world = world
+        self.cur = None
+        self.tid = None
+
+    def arith(self, op, a, b, e):
+        r = skel.Skel.arith(self, op, a, b, e)
+        if isinstance(r, int) and not isinstance(r, bool) and op in ("+", "-", "*", "<<") and unsigned_ty(e):
+            r %= M64
+        return r
+
+    def here(self, node=None):
+        n = node if node is not None and node.get("l") is not None else self.cur
+        return self.fn.nloc(n) if n is not None else self.fn.loc
+
+    def store(self, key, v):
+        if key is None:
+            raise dtable.Undecidable("%s: assignment through an lvalue that is not understood" % self.here())
+        if isinstance(v, int) and not isinstance(v, bool) and _is_shared(key):
+            v %= M64
+        old = self.load(key)
+        skel.Skel.store(self, key, v)
+        self.world.on_store(self, key, old, v)
+
+    def stmt(self, s):
+        if s is None:
+            return
+        if s["k"] != "CompoundStmt":
+            self.cur = s
+        if s["k"] == "DeclStmt":
+            for v in kids(s):
+                if v["k"] == "VarDecl" and is_guard_ty(v.get("ty")):
+                    self.world.on_guard(self, v)
+        skel.Skel.stmt(self, s)
+
+
+class World:
+    """what the simulated threads see of the synchronisation primitives; subclasses say what an event means"""
+    atomics = ()
+
+    def __init__(self, tu):
+        self.tu = tu
+        self.shared = {("meta", "tick"): 0}
+
+    def tick(self):
+        self.shared[("meta", "tick")] += 1
+
+    # ---- hooks of engine/skel.py
+    def unknown(self, e, sk):
+        if "callee" in e:
+            for a in kids(e):
+                for y in walk(a):
+                    callable_ = y["k"] == "DeclRefExpr" and isinstance(sk.env.get(y["ref"]["id"]), tuple)      # the action / a lambda
+                    if y["k"] == "This" or y["k"] == "LambdaExpr" or callable_ or (y["k"] == "DeclRefExpr" and y["ref"]["id"] in sk.alias):
+                        raise dtable.Undecidable("%s: call of %s() that receives the object, a reference into it or a callable is not understood"
+                                                 % (sk.here(e), e["callee"]["name"]))
+        return None
+
+    def event(self, e, sk):
+        k = e["k"]
+        if k == "LambdaExpr":
+            return ("lambda", e.get("fn"))
+        if k == "MemberExpr":
+            if match.this_field(e) in self.atomics:
+                raise dtable.Undecidable("%s: use of the atomic %s that is not a recognised atomic operation" % (sk.here(e), e["member"]))
+            return NotImplemented
+        if "callee" not in e:
+            return NotImplemented
+        c = e["callee"]
+        name = c["name"]
+        rec = c.get("record") or ""
+        args = kids(e)
+        if k in ("CXXConstructExpr", "CXXTemporaryObjectExpr") and is_guard_ty(e.get("ty")):
+            return ("guard",)
+        if name in ("move", "forward", "as_const") and len(args) == 1 and (c.get("qname") or "").startswith("std::"):
+            return sk.ev(args[0])
+        if e.get("member_call") and args:
+            obj = strip_casts(args[0])
+            if "condition_variable" in rec:
+                if name == "wait":
+                    self.tick()
+                    return self.cv_wait(sk, e)
+                if name in ("notify_one", "notify_all"):
+                    self.tick()
+                    self.on_notify(sk, e, name)
+                    return None
+                raise dtable.Undecidable("%s: condition_variable::%s is not modelled" % (sk.here(e), name))
+            if obj is not None and (is_guard_ty(obj.get("ty")) or (obj.get("ty") or "").endswith("mutex")):
+                if name in ("lock", "unlock"):
+                    self.tick()
+                    self.on_lock(sk, e, name)
+                    return None
+                raise dtable.Undecidable("%s: %s() on the mutex / its guard is not modelled" % (sk.here(e), name))
+            if match.this_field(obj) in self.atomics:
+                self.tick()
+                return self.atomic(sk, e, match.this_field(obj))
+        if k == "CXXOperatorCallExpr" and args:
+            if match.this_field(args[0]) in self.atomics:
+                self.tick()
+                return self.atomic(sk, e, match.this_field(args[0]))
+            if e.get("op") == "()":
+                obj = sk.ev(args[0])
+                if obj == ACTION:
+                    self.tick()
+                    self.on_action(sk, e)
+                    return None
+                if isinstance(obj, tuple) and obj[:1] == ("lambda",):
+                    return self.call_lambda(sk, obj[1], args[1:], e)
+                if self.tu.by_did.get(c.get("did")) is None or self.tu.by_did[c["did"]].body is None:
+                    raise dtable.Undecidable("%s: call of a callable object that is neither the action nor a lambda of this function" % sk.here(e))
+        return NotImplemented
+
+    def call_lambda(self, sk, did, args, e):
+        lf = self.tu.by_did.get(did)
+        if lf is None or lf.body is None:
+            raise dtable.Undecidable("%s: body of the lambda called here is not available" % sk.here(e))
+        for p, a in zip(lf.params, args):
+            sk.env[p["did"]] = sk.ev(a)
+        saved, savedcur = sk.fn, sk.cur
+        sk.fn = lf
+        sk.depth += 1
+        try:
+            sk.run(kids(lf.body))
+            ret = None
+        except skel.Return as r:
+            ret = r.v
+        finally:
+            sk.fn, sk.cur = saved, savedcur
+            sk.depth -= 1
+        return ret
+
+    def cv_wait(self, sk, e):
+        args = [a for a in kids(e)[1:] if a is not None and a["k"] != "DefaultArg"]
+        if len(args) < 2:
+            self.block(sk, e)
+            return None
+        pv = sk.ev(args[1])
+        if not (isinstance(pv, tuple) and pv[:1] == ("lambda",)):
+            raise dtable.Undecidable("%s: predicate of cv wait is not a lambda that can be evaluated" % sk.here(e))
+        rounds = 0
+        while True:           # wait(lock, pred) is `while (!pred()) wait(lock);`
+            r = self.call_lambda(sk, pv[1], [], e)
+            if r is None:
+                raise dtable.Undecidable("%s: predicate of cv wait depends on data" % sk.here(e))
+            if r:
+                return None
+            rounds += 1
+            if rounds > 16:
+                raise dtable.Undecidable("%s: predicate of cv wait never becomes true in the model" % sk.here(e))
+            self.block(sk, e)
+
+    def order_arg(self, sk, e, args, i):
+        if len(args) <= i or args[i] is None or args[i]["k"] == "DefaultArg":
+            return 5
+        o = const_int(args[i])
+        if o is None:
+            o = sk.ev(args[i])
+        if not isinstance(o, int) or isinstance(o, bool) or o not in ORDER:
+            raise dtable.Undecidable("%s: memory order argument is not a constant" % sk.here(e))
+        return o
+
+    def atomic(self, sk, e, f):
+        """decodes an operation on the atomic field f into (kind, order, value function) and lets the world perform it"""
+        name = e["callee"]["name"]
+        key = ("field", f)
+        if e["k"] != "CXXOperatorCallExpr":
+            args = [a for a in kids(e)[1:] if a is not None]
+            if name == "load":
+                return self.on_atomic(sk, e, f, "load", self.order_arg(sk, e, args, 0), None, None)
+            if name == "store" and args:
+                v = sk.ev(args[0])
+                return self.on_atomic(sk, e, f, "store", self.order_arg(sk, e, args, 1), lambda old: v, lambda old, new: None)
+            if name in ("fetch_add", "fetch_sub") and args:
+                d = sk.ev(args[0])
+                if not isinstance(d, int):
+                    raise dtable.Undecidable("%s: amount of %s depends on data" % (sk.here(e), name))
+                sg = 1 if name == "fetch_add" else -1
+                return self.on_atomic(sk, e, f, "rmw", self.order_arg(sk, e, args, 1), lambda old: (old + sg * d) % M64, lambda old, new: old)
+            if name == "exchange" and args:
+                v = sk.ev(args[0])
+                return self.on_atomic(sk, e, f, "rmw", self.order_arg(sk, e, args, 1), lambda old: v, lambda old, new: old)
+            if name.startswith("operator ") and not args:       # conversion to the value type
+                return self.on_atomic(sk, e, f, "load", 5, None, None)
+        else:
+            op = e.get("op")
+            args = kids(e)[1:]
+            if op in ("++", "--"):
+                sg = 1 if op == "++" else -1
+                post = len(kids(e)) == 2
+                return self.on_atomic(sk, e, f, "rmw", 5, lambda old: (old + sg) % M64, (lambda old, new: old) if post else (lambda old, new: new))
+            if op in ("+=", "-=") and args:
+                d = sk.ev(args[0])
+                if not isinstance(d, int):
+                    raise dtable.Undecidable("%s: amount of %s depends on data" % (sk.here(e), op))
+                sg = 1 if op == "+=" else -1
+                return self.on_atomic(sk, e, f, "rmw", 5, lambda old: (old + sg * d) % M64, lambda old, new: new)
+            if op == "=" and args:
+                v = sk.ev(args[0])
+                return self.on_atomic(sk, e, f, "store", 5, lambda old: v, lambda old, new: v)
+        raise dtable.Undecidable("%s: atomic operation %s on %s is not modelled" % (sk.here(e), name, f))
+
+    # ---- meanings, overridden
+    def on_store(self, sk, key, old, new):
+        pass
+
+    def on_guard(self, sk, v):
+        pass
+
+    def on_lock(self, sk, e, name):
+        pass
+
+    def on_notify(self, sk, e, kind):
+        pass
+
+    def on_action(self, sk, e):
+        pass
+
+    def on_atomic(self, sk, e, f, kind, order, newval, result):
+        raise dtable.Undecidable("%s: atomic operation outside a barrier model" % sk.here(e))
+
+    def block(self, sk, e):
+        raise dtable.Undecidable("%s: cv wait outside a model" % sk.here(e))
+
+
+# ------------------------------------------------------------------------------------------------ lock state (closed world)
+def mutex_aliases(fn, mutex):
+    """local references `std::mutex& m = mutex_;`"""
+    return {v["did"] for v in fn.nodes() if v["k"] == "VarDecl" and (v.get("ty") or "").rstrip().endswith("&") and kids(v)
+            and match.this_field(kids(v)[0]) == mutex}
+
+
+def lock_open_uses(fn, mutex, known_guards=()):
+    """uses of the mutex field / of a guard object that the lock-state dataflow does not interpret: with one of them present
+    'not held' cannot be concluded"""
+    out = []
+    alias = mutex_aliases(fn, mutex)
+    for x in fn.nodes():
+        if x["k"] == "VarDecl" and is_guard_ty(x.get("ty")) and x.get("did") not in known_guards:
+            out.append(x)                    # a guard the dataflow did not see being built from the mutex
+            continue
+        if "callee" in x and x["k"] not in ("CXXConstructExpr", "CXXTemporaryObjectExpr") and is_guard_ty(x["callee"].get("ret")):
+            out.append(x)                    # a guard handed out by a function
+            continue
+        isg = x["k"] == "DeclRefExpr" and is_guard_ty(x.get("ty"))
+        ism = (x["k"] == "MemberExpr" and match.this_field(x) == mutex) or (x["k"] == "DeclRefExpr" and x["ref"]["id"] in alias)
+        if not (isg or ism):
+            continue
+        par = fn.parent(x)
+        while par is not None and par["k"] in ("ImplicitCastExpr", "ParenExpr"):
+            par = fn.parent(par)
+        if par is None:
+            out.append(x)
+            continue
+        if par["k"] == "VarDecl" and par.get("did") in alias:
+            continue
+        if "callee" in par:
+            name = par["callee"]["name"]
+            first = kids(par) and strip_casts(kids(par)[0]) is x
+            if par.get("member_call") and first and name in ("lock", "unlock"):
+                if isg and x["ref"].get("kind") == "param":
+                    out.append(x)            # a guard handed in by the caller: its state belongs to the caller's dataflow
+                continue
+            if par["k"] in ("CXXConstructExpr", "CXXTemporaryObjectExpr") and is_guard_ty(par.get("ty")) and ism:
+                continue
+            if "condition_variable" in (par["callee"].get("record") or "") and name == "wait" and isg:
+                continue
+        out.append(x)
+    return out
+
+
+class LockSet:
+    """lock state at the nodes of a set of member functions: API functions start unlocked, private helpers start in the
+    state common to all their call sites"""
+    def __init__(self, tu, record, roots, mutex):
+        self.tu, self.mutex = tu, mutex
+        self.flows = {}
+        self.open = {}
+        self.fns = []
+        self.entry = {}
+        members = {f.did: f for f in tu.find(record=record) if f.body is not None}
+        callers = {}
+        self.callees = {}
+        self.calls_out = {}
+        order = []
+        seen = set()
+        stack = list(roots)
+        while stack:                       # helpers reachable through calls on *this
+            f = stack.pop()
+            if f.did in seen:
+                continue
+            seen.add(f.did)
+            order.append(f)
+            for x in f.nodes():
+                if "callee" in x and x.get("member_call") and kids(x) and strip_casts(kids(x)[0])["k"] == "This":
+                    cal = members.get(x["callee"].get("did"))
+                    if cal is not None and cal.did != f.did:
+                        callers.setdefault(cal.did, []).append((f, x))
+                        self.callees.setdefault(f.did, []).append(cal)
+                        stack.append(cal)
+        for fid, sites in list(callers.items()):
+            cal = members[fid]
+            if not self.neutral(cal):        # the callee changes the lock state under the caller's feet
+                for f, x in sites:
+                    self.calls_out.setdefault(f.did, []).append(x)
+        rootids = {r.did for r in roots}
+        self.fns = order
+        pending = list(order)
+        rounds = 0
+        while pending:
+            rounds += 1
+            if rounds > 50:
+                raise dtable.Undecidable("lock state of the helper call graph of %s does not settle" % record)
+            nxt = []
+            for f in pending:
+                if f.did in rootids:
+                    self._flow(f, False)
+                    continue
+                sites = callers.get(f.did, [])
+                if any(c.did not in self.flows for c, x in sites):
+                    nxt.append(f)
+                    continue
+                held = [self.flows[c.did].held_at(x) for c, x in sites]
+                self._flow(f, all(h is True for h in held))
+            if len(nxt) == len(pending):
+                raise dtable.Undecidable("recursive helper calls in %s: lock state not derived" % record)
+            pending = nxt
+
+    def _flow(self, f, entry):
+        alias = mutex_aliases(f, self.mutex)
+        self.flows[f.did] = sync.LockFlow(f, (lambda e: match.this_field(e) == self.mutex or ref_of(e) in alias) if alias else self.mutex, entry_held=entry)
+        self.entry[f.did] = entry
+        self.open[f.did] = lock_open_uses(f, self.mutex, self.flows[f.did].guards) + self.calls_out.get(f.did, [])
+
+    def neutral(self, f, seen=()):
+        """a call of f leaves the lock state as it found it: f locks only through guards that live and die inside it"""
+        if f.did in seen:
+            return True
+        if is_guard_ty(f.d.get("ret")):
+            return False
+        for x in f.nodes():
+            if "callee" in x and x.get("member_call") and kids(x) and x["callee"]["name"] in ("lock", "unlock", "try_lock", "release", "swap"):
+                o = strip_casts(kids(x)[0])
+                if match.this_field(o) == self.mutex or (o["k"] == "DeclRefExpr" and is_guard_ty(o.get("ty")) and o["ref"].get("kind") == "param"):
+                    return False
+            if x["k"] == "ReturnStmt" and kids(x) and is_guard_ty((strip_casts(kids(x)[0]) or {}).get("ty")):
+                return False
+        return all(self.neutral(c, tuple(seen) + (f.did,)) for c in self.callees.get(f.did, []))
+
+    def status(self, fn, node):
+        """True: held on every path | False: the dataflow, which interprets every lock operation of the function, has a path
+        on which it is not held | Undecidable: not known to be held and the function has lock operations it does not interpret"""
+        fl = self.flows.get(fn.did)
+        if fl is None:
+            raise dtable.Undecidable("%s: lock state of %s not derived" % (fn.nloc(node), fn.qname))
+        h = fl.held_at(node)
+        if h is True:
+            return True
+        if h == "?":
+            raise dtable.Undecidable("%s: node is not in the control-flow graph: lock state unknown" % fn.nloc(node))
+        if self.open[fn.did]:
+            u = self.open[fn.did][0]
+            raise dtable.Undecidable("%s: %s is not known to be held here and the function uses the mutex / a guard in a way the lock "
+                                     "dataflow does not interpret (line %s)" % (fn.nloc(node), self.mutex, u.get("l")))
+        return False
+
+
+# ------------------------------------------------------------------------------------------------ Semaphore
+V_GRID = (0, 1, 2, 3, 4, 6)
+D_GRID = (0, 1, 2, 3)
+S_GRID = (0, 1, 2)
+HAVOC = ("same", 0, 1, 2, 3, 4, 6)
+BIG = 6            # >= every delta + slack of the grid: lets re-check loops end
+MAX_HAVOC = 2
+
+
+class SemWorld(World):
+    """one call of a Semaphore member on (value_, delta, slack); whenever mutex_ is given up (cv wait, unlock ... lock, a second
+    guard) the environment sets value_ to the next value of the script"""
+    def __init__(self, tu, vname, v0, script):
+        World.__init__(self, tu)
+        self.vkey = ("field", vname)
+        self.shared[self.vkey] = v0
+        self.script = script
+        self.used = 0
+        self.log = []
+        self.guards = 0
+
+    def havoc(self, sk, why, node):
+        key = self.vkey
+        old = self.shared[key]
+        nxt = self.script[self.used] if self.used < len(self.script) else BIG
+        self.used += 1
+        if nxt != "same":
+            self.shared[key] = nxt
+        self.log.append(("havoc", why, old, self.shared[key], sk.fn, node))
+
+    def block(self, sk, e):
+        self.log.append(("wait", sk.fn, e))
+        self.havoc(sk, "wait", e)
+
+    def on_lock(self, sk, e, name):
+        if name == "lock":
+            self.havoc(sk, "lock", e)
+
+    def on_guard(self, sk, v):
+        self.guards += 1
+        if self.guards > 1:
+            self.havoc(sk, "lock", v)
+
+    def on_notify(self, sk, e, kind):
+        self.log.append(("notify", kind, sk.fn, e))
+
+    def on_store(self, sk, key, old, new):
+        if key == self.vkey and old != new:
+            self.log.append(("store", old, new, sk.fn, sk.cur))
+
+
+def sem_runs(tu, fn, grid, vname):
+    """all runs of fn over the grid and over the environment's scripts: yields (v0, d, s, script, log)"""
+    for v0, d, s in grid:
+        pending = [()]
+        while pending:
+            script = pending.pop()
+            w = SemWorld(tu, vname, v0, script)
+            sk = Sim(fn, tu, w, w.shared)
+            for p, val in zip(fn.params, (d, s)):
+                sk.env[p["did"]] = val
+            try:
+                sk.run(kids(fn.body))
+            except skel.Return:
+                pass
+            if w.used > len(script) and len(script) < MAX_HAVOC:
+                pending.extend(script + (h,) for h in HAVOC)
+                continue            # the longer scripts cover this run
+            yield v0, d, s, script, w.log
+
+
+def call_text(fn, v0, d, s, script):
+    args = [str(x) for x in (d, s)[:len(fn.params)]]
+    t = "%s(%s) entered with value_=%d" % (fn.name, ", ".join(args), v0)
+    if script:
+        t += ", value_ after each reacquisition of mutex_: %s" % ", ".join("unchanged" if h == "same" else str(h) for h in script)
+    return t
 
 
 def check_semaphore(ck, tu):
-    fns = [f for f in tu.find(record=SEM) if f.name in ("signal", "wait", "try_acquire")]
-    ck.require(len(fns) == 4, "Semaphore: expected signal x2, wait, try_acquire (found %d)" % len(fns))
-    flows = {f.did: sync.LockFlow(f, "mutex_") for f in fns}
-    # waits: predicate = enclosing loop condition
-    waiter_params = False
-    for fn in fns:
-        fl = flows[fn.did]
-        g = fl.g
+    api = [f for f in tu.find(record=SEM) if f.name in ("signal", "wait", "try_acquire") and f.body is not None]
+    for nm in ("signal", "wait", "try_acquire"):
+        ck.require(any(f.name == nm for f in api), "Semaphore::%s not found" % nm)
+    roles = field_roles(tu, SEM, {"value": (_uint, 1), "mutex": (_mutex, 1)})
+    VAL, MTX = roles["value"], roles["mutex"]
+    names = {"value_": VAL, "mutex_": MTX}
+    ls = LockSet(tu, SEM, api, MTX)
+    # --- lockset: every access of value_ in the API functions and their helpers
+    for fn in ls.fns:
         tag = "%s/%d" % (fn.qname, len(fn.params))
         for x in fn.nodes():
-            if x["k"] == "MemberExpr" and match.this_field(x) == "value_":
-                if fl.held_at(x) is True:
-                    ck.ok("SEM-LOCKSET", "%s @%s" % (tag, fn.nloc(x)), "value_ accessed with mutex_ held", nontrivial=False)
+            if x["k"] == "MemberExpr" and match.this_field(x) == VAL:
+                if ls.status(fn, x) is True:
+                    ck.ok("SEM-LOCKSET", "%s @%s" % (tag, fn.nloc(x)), renamed("value_ accessed with mutex_ held", names), nontrivial=False)
                 else:
-                    ck.violation("SEM-LOCKSET", fn.qname, "%s/%d:value_" % (fn.name, len(fn.params)), "value_ is accessed without holding mutex_", fn.nloc(x))
-        for w in sync.wait_calls(fn):
-            par = fn.parent(w["node"])
-            loop = None
-            while par is not None:
-                if par["k"] in ("WhileStmt", "DoStmt"):
-                    loop = par
-                    break
-                par = fn.parent(par)
-            if w["pred"] is None and loop is None:
-                ck.violation("NO-BARE-WAIT", fn.qname, fn.name, "cv_.wait() without predicate and without an enclosing re-check loop", fn.nloc(w["node"]))
-                continue
-            cond = match.loop_parts(loop)[1] if loop is not None else None
-            refs = [y["ref"]["id"] for y in ir.walk(cond) if y["k"] == "DeclRefExpr"] if cond is not None else []
-            if any(fn.param_index(r) is not None for r in refs):
-                waiter_params = True
-            ck.ok("NO-BARE-WAIT", tag, "wait re-checks %s in a loop with mutex_ held" % (dtable.describe(cond) if cond is not None else "its predicate"))
-        # guarded take: on every path to `value_ -= delta` the last thing known about value_ is value_ >= delta + slack
-        delta = fn.params[0]["did"] if fn.params else None
-        slack = fn.params[1]["did"] if len(fn.params) > 1 else None
-        def is_take(x):
-            if match.binop(x, ("-=",)) or x.get("op") == "--":
-                return True
-            b_ = match.binop(x, ("=",))
-            d_ = match.binop(b_[2], ("-",)) if b_ else None
-            return bool(d_ and match.this_field(d_[1]) == "value_")            # value_ = value_ - X
-        takes = [(x, f, eff) for x, f, eff in field_writes(fn) if f == "value_" and is_take(x)]
-        if not takes:
-            continue
-        locals_ = {v["did"]: v for v in fn.nodes() if v["k"] == "VarDecl"}
-        assigned = {ref_of(match.binop(z, ("=", "+=", "-="))[1]) for z in fn.nodes()
-                    if z["k"] in ("BinaryOperator", "CompoundAssignOperator") and match.binop(z, ("=", "+=", "-="))}
+                    ck.violation("SEM-LOCKSET", fn.qname, "%s/%d:value_" % (fn.name, len(fn.params)), renamed("value_ is accessed without holding mutex_", names), fn.nloc(x))
+    # --- evaluation
+    obs = {}
+    blocked = {}           # (v0, d, s) -> the call blocked before anything else
 
-        def params_sum(e, depth=0):
-            """sorted list of parameter ids if e is a sum of parameters (through never-reassigned locals), else None"""
-            e = strip_casts(e)
-            while e is not None and e["k"] == "ParenExpr":
-                e = strip_casts(kids(e)[0])
-            if e is None or depth > 4:
-                return None
-            d = ref_of(e)
-            if d is not None:
-                if fn.param_index(d) is not None:
-                    return [d]
-                v = locals_.get(d)
-                if v is not None and kids(v) and d not in assigned:
-                    return params_sum(kids(v)[0], depth + 1)
-                return None
-            sm = match.binop(e, ("+",))
-            if sm:
-                l, r = params_sum(sm[1], depth + 1), params_sum(sm[2], depth + 1)
-                return sorted(l + r) if l is not None and r is not None else None
-            return None
-        want = sorted(d for d in (delta, slack) if d is not None)
-
-        def implies(c, truth):
-            c = strip_casts(c)
-            while c is not None and (c["k"] == "ParenExpr" or (c["k"] == "UnaryOperator" and c.get("op") == "!")):
-                if c["k"] == "UnaryOperator":
-                    truth = not truth
-                c = strip_casts(kids(c)[0])
-            bb = match.binop(c, ("<", ">=", ">", "<="))
-            if not bb:
-                return False
-            op, l, r = bb
-            if match.this_field(r) == "value_":
-                l, r = r, l
-                op = {"<": ">", ">": "<", "<=": ">=", ">=": "<="}[op]
-            if match.this_field(l) != "value_" or params_sum(r) != want:
-                return False
-            return (op == ">=" and truth) or (op == "<" and not truth)
-        waits_ = {w["node"]["id"]: w for w in sync.wait_calls(fn)}
-
-        def effect(n):
-            if n["id"] in waits_:
-                w = waits_[n["id"]]
-                if w["pred"] is not None:
-                    lf = tu.by_did.get(w["pred"].get("fn"))
-                    rets = [r for r in ir.walk(lf.body) if r["k"] == "ReturnStmt" and kids(r)] if lf is not None and lf.body is not None else []
-                    if len(rets) == 1 and implies(kids(rets[0])[0], True):
-                        return "gen"
-                return "kill"
-            if "callee" in n and n["callee"]["name"] in ("unlock", "lock"):
-                return "kill"
-            if "callee" in n and n.get("member_call") and kids(n) and strip_casts(kids(n)[0])["k"] == "This" and not n["callee"].get("const"):
-                raise dtable.Undecidable("%s: call of %s() between the availability test and the take" % (fn.loc, n["callee"]["name"]))
-            if any(n is x for x, f, eff in field_writes(fn) if f == "value_"):
-                return "kill"
-            return None
-        mf = mustfact.MustFact(fn, g, implies, effect)
-        for x, f, eff in takes:
-            b = match.binop(x, ("-=",))
-            if not b and match.binop(x, ("=",)):
-                d_ = match.binop(match.binop(x, ("=",))[2], ("-",))
-                b = ("-=", d_[1], d_[2])
-            amount = params_sum(b[2]) if b else None
-            if b and amount is None:
-                raise dtable.Undecidable("%s: amount taken from the semaphore not understood: %s" % (fn.loc, dtable.describe(b[2])))
-            if amount != [delta]:
-                ck.violation("SEM-GUARDED-TAKE", fn.qname, fn.name, "the semaphore is decremented by %s instead of delta"
-                             % (dtable.describe(b[2]) if b else "1"), fn.nloc(x))
-            elif mf.before(x) is True:
-                ck.ok("SEM-GUARDED-TAKE", tag, "value_ -= delta only after value_ >= delta + slack was established in the same hold")
-            else:
-                ck.violation("SEM-GUARDED-TAKE", fn.qname, fn.name, "value_ -= delta is reachable on a path on which value_ >= delta + slack "
-                             "was not the last thing established under the lock", fn.nloc(x))
-    # writes that add tokens need a notify; kind depends on the waiters
-    for fn in fns:
-        fl = flows[fn.did]
-        g = fl.g
-        notes = sync.notify_calls(fn)
+    def evaluate(fn):
+        taker = fn.name in ("wait", "try_acquire")
         tag = "%s/%d" % (fn.qname, len(fn.params))
-        for x, f, eff in field_writes(fn):
-            if f != "value_":
-                continue
-            adds = (x.get("op") in ("++", "+=")) or (match.binop(x, ("+=",)) is not None) or (match.unop(x, ("++",)) is not None)
-            if match.binop(x, ("=",)):
-                adds = False
-            if not adds:
-                continue
-            px = g.pos_deep(x)
-            ns = [n for n in notes if g.pos(n["node"])]
-            if not ns or g.path_avoiding(px, [g.pos(n["node"]) for n in ns]) is not None:
-                ck.violation("WRITE-NOTIFY", fn.qname, "%s/%d" % (fn.name, len(fn.params)), "tokens are added without notifying cv_ on every path (lost wake-up)", fn.nloc(x))
-                continue
-            if fl.held_at(x) is not True:
-                ck.violation("WRITE-NOTIFY", fn.qname, "%s/%d:unlocked" % (fn.name, len(fn.params)), "value_ is increased without holding mutex_", fn.nloc(x))
-                continue
-            ck.ok("WRITE-NOTIFY", tag, "token-adding write followed by a notify on all paths, under mutex_")
-            for n in ns:
-                if n["kind"] == "notify_all":
+        np = len(fn.params)
+        if taker and np not in (1, 2):
+            raise dtable.Undecidable("%s: %s with %d parameters (expected delta[, slack])" % (fn.loc, fn.name, np))
+        if not taker and np > 1:
+            raise dtable.Undecidable("%s: signal with %d parameters" % (fn.loc, np))
+        grid = [(v, d if np >= 1 else 0, s if np >= 2 else 0) for v in V_GRID for d in (D_GRID if np >= 1 else (0,)) for s in (S_GRID if np >= 2 else (0,))]
+        found = {}             # (rule, sig) -> (msg, loc)
+        takes = waits = adds = 0
+        notes = {}             # notify node id -> (kind, fn, node)
+        for v0, d, s, script, log in sem_runs(tu, fn, grid, VAL):
+            need = d + s
+            txt = call_text(fn, v0, d, s, script)
+            first = next((ev for ev in log if ev[0] in ("wait", "store")), None)
+            if taker:
+                blocked[(fn.name, v0, d, s)] = first is not None and first[0] == "wait"
+            for i, ev in enumerate(log):
+                if ev[0] == "wait":
+                    waits += 1
+                    hv = log[i + 1]
+                    if hv[2] == hv[3]:      # woken with nothing changed: whatever made the call wait still holds
+                        nxt = next((z for z in log[i + 2:] if z[0] in ("wait", "store", "notify")), None)
+                        if nxt is None or nxt[0] != "wait":
+                            found.setdefault(("NO-BARE-WAIT", fn.name), (
+                                "cv_.wait() without predicate and without an enclosing re-check loop: %s - after a wake-up that changed nothing the call "
+                                "goes on instead of waiting again" % txt, ev[1].nloc(ev[2])))
+                elif ev[0] == "store":
+                    old, new, f_, st = ev[1], ev[2], ev[3], ev[4]
+                    loc = f_.nloc(st) if st is not None else f_.loc
+                    if taker and new == (old - d) % M64:
+                        takes += 1
+                        if old < need:
+                            found.setdefault(("SEM-GUARDED-TAKE", fn.name), (
+                                "value_ -= delta is reachable on a path on which value_ >= delta + slack was not the last thing established under the "
+                                "lock: %s takes %d at value_=%d although delta + slack = %d" % (txt, d, old, need), loc))
+                    elif taker and (old - new) % M64 < (1 << 63):
+                        found.setdefault(("SEM-GUARDED-TAKE", fn.name), (
+                            "the semaphore is decremented by %d instead of delta: %s" % ((old - new) % M64, txt), loc))
+                    else:
+                        adds += 1
+                        later = [z for z in log[i + 1:] if z[0] == "notify"]
+                        if not later:
+                            found.setdefault(("WRITE-NOTIFY", "%s/%d" % (fn.name, np)), (
+                                "tokens are added without notifying cv_ on every path (lost wake-up): %s raises value_ from %d to %d and returns "
+                                "without a notify" % (txt, old, new), loc))
+                        for z in later:
+                            notes[z[3]["id"]] = (z[1], z[2], z[3])
+                        if st is not None:
+                            for y in walk(st):
+                                if y["k"] == "MemberExpr" and match.this_field(y) == VAL and f_.did in ls.flows and ls.status(f_, y) is not True:
+                                    found.setdefault(("WRITE-NOTIFY", "%s/%d:unlocked" % (fn.name, np)), ("value_ is increased without holding mutex_", loc))
+        obs[fn.did] = (found, takes, waits, adds, notes, tag)
+    undecided = []
+    for fn in api:
+        try:
+            evaluate(fn)
+        except ir.AnalysisBroken as e:      # one function that cannot be evaluated does not hide what the others show
+            undecided.append(str(e))
+    # do the waiters' decisions depend on their own parameters?  (same value_, different (delta, slack), different decision)
+    waiter_params = None
+    waiters_known = all(f.did in obs for f in api if f.name in ("wait", "try_acquire"))
+    for (nm, v0, d, s), b in sorted(blocked.items()):
+        for (nm2, v1, d2, s2), b2 in blocked.items():
+            if nm2 == nm and v1 == v0 and b and not b2 and waiter_params is None:
+                waiter_params = "at value_=%d %s(%d, %d) blocks while %s(%d, %d) can proceed" % (v0, nm, d, s, nm, d2, s2)
+    for fn in api:
+        if fn.did not in obs:
+            continue
+        found, takes, waits, adds, notes, tag = obs[fn.did]
+        taker = fn.name in ("wait", "try_acquire")
+        np = len(fn.params)
+        for (rule, sig), (msg, loc) in sorted(found.items()):
+            ck.violation(rule, fn.qname, sig, renamed(msg, names), loc)
+        bad = {r for r, s_ in found}
+        if taker:
+            if not takes and "SEM-GUARDED-TAKE" not in bad:
+                undecided.append("%s: no run of %s on the grid takes delta tokens: what the function does is not understood" % (fn.loc, fn.name))
+            elif "SEM-GUARDED-TAKE" not in bad:
+                ck.ok("SEM-GUARDED-TAKE", tag, "on %d-point grid x environment scripts: value_ -= delta only at value_ >= delta + slack established in the same hold"
+                      % (len(V_GRID) * len(D_GRID) * len(S_GRID)))
+        if waits and "NO-BARE-WAIT" not in bad:
+            ck.ok("NO-BARE-WAIT", tag, "a wake-up that changed nothing is always followed by another wait (mutex_ held)")
+        if adds and not any(r == "WRITE-NOTIFY" for r in bad):
+            ck.ok("WRITE-NOTIFY", tag, "token-adding write followed by a notify in every run, under mutex_")
+        if adds:
+            for kind, nf, n in notes.values():
+                if kind == "notify_all":
                     ck.ok("NOTIFY-KIND", tag, "notify_all")
                 elif waiter_params:
-                    ck.violation("NOTIFY-KIND", fn.qname, "%s/%d" % (fn.name, len(fn.params)),
+                    ck.violation("NOTIFY-KIND", fn.qname, "%s/%d" % (fn.name, np), renamed(
                                  "waiters block on value_ < delta + slack with their own (delta, slack): after adding tokens a single notify_one can wake a waiter "
-                                 "whose request is still not covered while one that is covered stays blocked; notify_all is required", fn.nloc(n["node"]))
-                else:
+                                 "whose request is still not covered while one that is covered stays blocked; notify_all is required (%s)" % waiter_params, names), nf.nloc(n))
+                elif waiters_known:
                     ck.ok("NOTIFY-KIND", tag, "notify_one with a parameter-free waiter predicate")
+    ck.deferred.extend(undecided)
 
 
-def atomic_op(x):
-    """(field, op, order) for load/store/fetch_add/fetch_sub on an atomic field of *this"""
-    if "callee" in x and x.get("member_call") and x["callee"]["name"] in ("load", "store", "fetch_add", "fetch_sub", "exchange") and kids(x):
-        f = match.this_field(kids(x)[0])
-        if f:
-            args = kids(x)[1:]
-            order = 5
-            oi = {"load": 0, "store": 1, "fetch_add": 1, "fetch_sub": 1, "exchange": 1}[x["callee"]["name"]]
-            if len(args) > oi and args[oi]["k"] != "DefaultArg":
-                o = const_int(args[oi])
-                order = o if o is not None else None
-            return f, x["callee"]["name"], order
-    return None
+# ------------------------------------------------------------------------------------------------ barriers: common
+THREADS = (1, 2, 3)
+
+
+def ctor_field(tu, record, field, n):
+    """value the one-argument constructor gives to `field` for argument n"""
+    for c in tu.find(record=record):
+        if c.kind == "ctor" and len(c.params) == 1 and unsigned_ty(c.params[0]):
+            for i in c.inits:
+                if i.get("field") == field and i.get("e") is not None:
+                    w = World(tu)
+                    sk = Sim(c, tu, w, w.shared)
+                    sk.env[c.params[0]["did"]] = n
+                    v = sk.ev(i["e"])
+                    if isinstance(v, int) and not isinstance(v, bool):
+                        return v % M64
+                    raise dtable.Undecidable("%s: initialiser of %s not understood" % (c.loc, field))
+    raise dtable.Undecidable("%s: constructor initialising %s not found" % (record, field))
+
+
+class BarrierWorld(World):
+    """N threads enter the same member function one after the other; a thread runs until it has to block, then the next one
+    enters; when the blocked thread's reason to block is gone control returns to it (innermost first)"""
+    def __init__(self, tu, fn, what, n):
+        World.__init__(self, tu)
+        self.fn = fn
+        self.what = what
+        self.N = n
+        self.gen = 0
+        self.sched = ""
+        self.names = {}
+        self.inconclusive = False
+
+    def begin(self):
+        self.started = 0
+        self.stack = []
+        self.returned = []
+        self.action_runs = 0
+        self.notified = []
+
+    def cex(self, sig, msg, sk, node=None):
+        raise Counterexample(sig, "%s [%d thread%s, generation %d of the model%s]"
+                             % (renamed(msg, self.names), self.N, "" if self.N == 1 else "s", self.gen + 1, self.sched), sk.here(node))
+
+    def run_thread(self):
+        t = self.started
+        self.started += 1
+        self.stack.append(t)
+        sk = Sim(self.fn, self.tu, self, self.shared)
+        sk.tid = t
+        if not self.fn.params:
+            raise dtable.Undecidable("%s: barrier wait without an action parameter" % self.fn.loc)
+        sk.env[self.fn.params[0]["did"]] = ACTION
+        try:
+            try:
+                sk.run(kids(self.fn.body))
+            except skel.Return:
+                pass
+            except AbortThread:
+                return
+            self.on_return(sk, t)
+            self.returned.append(t)
+        finally:
+            self.stack.pop()
+
+    def generation(self):
+        self.begin()
+        self.run_thread()
+        if len(self.returned) != self.N and not self.inconclusive:
+            raise dtable.Undecidable("%s: model of %s ended with %d of %d threads through" % (self.fn.loc, self.what, len(self.returned), self.N))
+
+
+def run_barrier(ck, rule, fn, tag, variants, okmsg):
+    """variants: callables that run one schedule and raise Counterexample; all findings of distinct kind are reported"""
+    found = {}
+    for v in variants:
+        try:
+            v()
+        except Counterexample as c:
+            found.setdefault(c.sig, (c.msg, c.loc))
+        except StopRun:
+            pass
+    for sig, (msg, loc) in sorted(found.items()):
+        ck.violation(rule, fn.qname, "%s:%s" % (fn.name, sig), msg, loc)
+    if not found:
+        ck.ok(rule, tag, okmsg)
+    return not found
+
+
+# ------------------------------------------------------------------------------------------------ ThreadBarrierSpin
+class SpinWorld(BarrierWorld):
+    """the two atomics are told apart by what the threads do with them: the one a thread writes first is the arrival counter
+    (in the messages: waiting_), the other one the generation (step_)"""
+    SPIN_LIMIT = 6
+
+    def __init__(self, tu, fn, n, count_field, tcount, atomics, trigger, preempt_last=False):
+        BarrierWorld.__init__(self, tu, fn, "ThreadBarrierSpin", n)
+        self.atomics = tuple(atomics)
+        self.shared[("field", count_field)] = tcount
+        for a in self.atomics:
+            self.shared[("field", a)] = 0
+        self.names = {"thread_count_": count_field}
+        self.arrive_f = self.gen_f = None
+        self.trigger = trigger
+        self.preempt_last = self.inconclusive = preempt_last
+        # explicit fences change what the orders written at the operations mean: they are not modelled
+        self.fences = [y for f in tu.find(record=BS) for y in f.nodes() if "callee" in y and y["callee"]["name"] in ("atomic_thread_fence", "atomic_signal_fence")]
+        self.sched = ", others run %s" % ("right after a thread's arrival" if trigger == 0 else "at a thread's spin load no. %d" % trigger)
+        if preempt_last:
+            self.sched += ", the last thread is preempted right after its arrival"
+
+    def begin(self):
+        BarrierWorld.begin(self)
+        self.arrived = []
+        self.loads = {}
+        self.idle = {}
+        self.released = False
+        self.acq = set()
+        self.last_order = {}
+        self.w0 = self.shared[("field", self.arrive_f)] if self.arrive_f else 0
+
+    def is_last(self, t):
+        return len(self.arrived) == self.N and self.arrived[-1] == t
+
+    def memorder(self, sig, msg, sk, e):
+        if self.fences:
+            raise dtable.Undecidable("%s: %s - but the class uses explicit fences (line %s), whose effect is not modelled"
+                                     % (sk.here(e), msg, self.fences[0].get("l")))
+        self.cex(sig, msg, sk, e)
+
+    def let_others_run(self):
+        while self.started < self.N:
+            self.run_thread()
+
+    def on_atomic(self, sk, e, f, kind, order, newval, result):
+        t = self.stack[-1]
+        key = ("field", f)
+        if self.arrive_f is None:
+            if kind == "load":
+                return self.shared[key]          # a sample taken before anything was written
+            self.arrive_f = f
+            self.gen_f = [a for a in self.atomics if a != f][0]
+            self.names.update({"waiting_": self.arrive_f, "step_": self.gen_f})
+            self.w0 = self.shared[key]
+        if f == self.arrive_f:
+            if kind == "load":
+                return self.shared[key]
+            if t not in self.arrived:
+                if kind != "rmw":
+                    raise dtable.Undecidable("%s: a thread's first write to %s is not a read-modify-write: arrival not understood" % (sk.here(e), f))
+                old = self.shared[key]
+                new = newval(old)
+                self.shared[key] = new
+                self.arrived.append(t)
+                if order < 4:
+                    self.memorder("arrive-memorder", "the arrival fetch_add uses memory order %s (needs acq_rel)" % ORDER[order], sk, e)
+                if self.preempt_last and len(self.arrived) == self.N:
+                    raise AbortThread()
+                if self.trigger == 0:
+                    self.let_others_run()
+                return result(old, new)
+            # a second write: the reset of the arrival counter
+            if not self.is_last(t):
+                self.cex("rmw-result", "an arriver whose fetch_add result differs from thread_count_ can reach the reset / release of the generation: "
+                         "thread %d of %d arrivals so far writes waiting_" % (self.arrived.index(t) + 1, len(self.arrived)), sk, e)
+            old = self.shared[key]
+            new = newval(old)
+            self.shared[key] = new
+            return result(old, new)
+        # the generation counter
+        if kind == "load":
+            if t in self.arrived:
+                n = self.loads[t] = self.loads.get(t, 0) + 1
+                if self.trigger and n == self.trigger:
+                    self.let_others_run()
+                self.last_order[t] = (order, sk.here(e))
+                if self.released and order in (1, 2, 4, 5):
+                    self.acq.add(t)          # this load observes the release and synchronises with it
+                if self.preempt_last and n > self.trigger + 3:
+                    raise StopRun()
+                if self.started == self.N and not self.preempt_last:
+                    i = self.idle[t] = self.idle.get(t, 0) + 1
+                    if i > self.SPIN_LIMIT:
+                        if self.released:
+                            self.cex("snapshot", "the generation is sampled after the arrival was published: a late sampler spins on the next generation forever "
+                                     "(thread %d keeps spinning although step_ was advanced after its arrival)" % (t + 1), sk, e)
+                        self.cex("no-release", "all %d threads have arrived and thread %d spins: nobody advances step_" % (self.N, t + 1), sk, e)
+            return self.shared[key]
+        # a write to the generation counter: the release of the generation
+        if not self.is_last(t):
+            self.cex("rmw-result", "an arriver whose fetch_add result differs from thread_count_ can reach the reset / release of the generation: "
+                     "step_ is advanced by arrival %s of %d so far" % (self.arrived.index(t) + 1 if t in self.arrived else "-", len(self.arrived)), sk, e)
+        if self.action_runs == 0 or self.shared[("field", self.arrive_f)] != self.w0:
+            self.cex("release-order", "the generation counter is advanced (releasing the spinners) before the arrival counter was reset and the action has run "
+                     "(waiting_=%d, action ran %d times at that moment)" % (self.shared[("field", self.arrive_f)], self.action_runs), sk, e)
+        if order not in (3, 4, 5):
+            self.memorder("release-memorder", "the releasing increment of step_ uses memory order %s (needs release or stronger)" % ORDER[order], sk, e)
+        old = self.shared[key]
+        new = newval(old)
+        self.shared[key] = new
+        if new != old:
+            self.released = True
+            self.idle = {}
+        return result(old, new)
+
+    def on_action(self, sk, e):
+        t = self.stack[-1]
+        if t not in self.arrived:
+            self.cex("action-early", "the action runs before the arrival was counted", sk, e)
+        if not self.is_last(t):
+            self.cex("action-early", "the action runs after only %d of %d threads have arrived" % (len(self.arrived), self.N), sk, e)
+        self.action_runs += 1
+        if self.action_runs > 1:
+            self.cex("action-twice", "the action runs %d times in one generation" % self.action_runs, sk, e)
+
+    def on_return(self, sk, t):
+        if len(self.arrived) < self.N or not self.released or self.action_runs != 1:
+            self.cex("spin-snapshot", "waiters do not spin on their own snapshot of the generation: thread %d leaves the barrier with %d of %d arrivals, "
+                     "step_ %s, action ran %d times" % (t + 1, len(self.arrived), self.N, "advanced" if self.released else "not advanced", self.action_runs), sk)
+        if not self.is_last(t) and t not in self.acq:
+            o, where = self.last_order.get(t, (None, None))
+            if o is None:
+                self.cex("spin-snapshot", "waiters do not spin on their own snapshot of the generation: thread %d leaves without having read step_ after its arrival" % (t + 1), sk)
+            if self.fences:
+                raise dtable.Undecidable("%s: no acquire load sees the advanced generation, but the class uses explicit fences, whose effect is not modelled" % where)
+            raise Counterexample("spin-memorder", renamed("the spinning load of step_ uses memory order %s (needs acquire or stronger): no load of thread %d that sees the "
+                                 "advanced step_ is an acquire [%d threads, generation %d of the model%s]" % (ORDER[o], t + 1, self.N, self.gen + 1, self.sched), self.names), where)
+
+    def block(self, sk, e):
+        raise dtable.Undecidable("%s: condition variable in the spin barrier" % sk.here(e))
 
 
 def check_spin(ck, tu):
-    fns = [f for f in tu.find(record=BS) if f.name in ("wait", "wait_yield")]
-    ck.require(len(fns) >= 2, "ThreadBarrierSpin::wait / wait_yield not instantiated")
-    skel = {}
+    fns = [f for f in tu.find(record=BS) if f.name in ("wait", "wait_yield") and f.body is not None]
+    for nm in ("wait", "wait_yield"):
+        ck.require(any(f.name == nm for f in fns), "ThreadBarrierSpin::%s not instantiated" % nm)
+    roles = field_roles(tu, BS, {"count": (_const_uint, 1), "atomics": (_atomic_uint, 2)})
+    tcount = {n: ctor_field(tu, BS, roles["count"], n) for n in THREADS}
     for fn in fns:
-        g = cfgm.CFG(fn)
         tag = "%s<%s>" % (fn.qname, "lambda" if "lambda" in fn.full else "default")
-        ops = [(x, atomic_op(x)) for x in fn.nodes() if atomic_op(x)]
-        snap = [x for x, (f, op, o) in ops if f == "step_" and op == "load" and fn.parent(x) is not None and fn.parent(x)["k"] == "VarDecl"]
-        arrive = [x for x, (f, op, o) in ops if f == "waiting_" and op == "fetch_add"]
-        reset = [x for x, (f, op, o) in ops if f == "waiting_" and op == "store"]
-        release = [x for x, (f, op, o) in ops if f == "step_" and op in ("fetch_add", "store")]
-        spin = [x for x, (f, op, o) in ops if f == "step_" and op == "load" and x not in snap]
-        lam = [x for x in fn.nodes() if "callee" in x and x.get("op") == "()" and kids(x) and ref_of(kids(x)[0]) == fn.params[0]["did"]]
-        bad = []
-        # the last arriver's work may live in a private helper that receives the action
-        hfn, hcall, hg = None, None, None
-        if len(snap) == 1 and len(arrive) == 1 and len(spin) == 1 and not reset and not release and not lam:
-            for x in fn.nodes():
-                if "callee" in x and x.get("member_call") and kids(x) and strip_casts(kids(x)[0])["k"] == "This":
-                    cal = tu.by_did.get(x["callee"]["did"])
-                    if cal is None or cal.body is None or cal.did == fn.did:
-                        continue
-                    ai = [i for i, a in enumerate(kids(x)[1:]) if ref_of(a) == fn.params[0]["did"]]
-                    if len(ai) != 1 or ai[0] >= len(cal.params):
-                        continue
-                    hops = [(y, atomic_op(y)) for y in cal.nodes() if atomic_op(y)]
-                    reset = [y for y, (f, op, o) in hops if f == "waiting_" and op == "store"]
-                    release = [y for y, (f, op, o) in hops if f == "step_" and op in ("fetch_add", "store")]
-                    lam = [y for y in cal.nodes() if "callee" in y and y.get("op") == "()" and kids(y) and ref_of(kids(y)[0]) == cal.params[ai[0]]["did"]]
-                    if any(f == "waiting_" and op == "fetch_add" for y, (f, op, o) in hops):
-                        reset = []
-                    hfn, hcall, hg = cal, x, cfgm.CFG(cal)
-                    break
-        if not (len(snap) == 1 and len(arrive) == 1 and len(reset) == 1 and len(release) == 1 and len(spin) == 1 and len(lam) == 1):
-            raise dtable.Undecidable("%s: barrier skeleton not recognised (snap=%d arrive=%d reset=%d release=%d spin=%d action=%d)"
-                                     % (fn.loc, len(snap), len(arrive), len(reset), len(release), len(spin), len(lam)))
-        P = g.pos
-        if not g.dominates(P(snap[0]), P(arrive[0])):
-            bad.append(("snapshot", "the generation is sampled after the arrival was published: a late sampler spins on the next generation forever", snap[0]))
-        # last decided by the RMW's own result
-        par = fn.parent(arrive[0])
-        while par is not None and par["k"] in ("ImplicitCastExpr",):
-            par = fn.parent(par)
-        cmpn = match.binop(par, ("==", "!=")) if par is not None else None
-        if not (cmpn and (strip_casts(cmpn[1]) is arrive[0] or strip_casts(cmpn[2]) is arrive[0])):
-            # the result may be named first: const size_t arrived = waiting_.fetch_add(1, ...); if (arrived == thread_count_)
-            vd = par if par is not None and par["k"] == "VarDecl" else None
-            uses = [y for y in fn.nodes() if vd is not None and y["k"] == "DeclRefExpr" and y["ref"]["id"] == vd["did"]]
-            cmpn = None
-            if len(uses) == 1:
-                up = fn.parent(uses[0])
-                while up is not None and up["k"] == "ImplicitCastExpr":
-                    up = fn.parent(up)
-                cmpn = match.binop(up, ("==", "!=")) if up is not None else None
-                par = up
-            if cmpn is None:
-                raise dtable.Undecidable("%s: how the last arriver is decided from the arrival fetch_add is not understood" % fn.loc)
-        other_side = cmpn[1] if match.this_field(cmpn[1]) == "thread_count_" else cmpn[2]
-        if match.this_field(other_side) != "thread_count_":
-            bad.append(("rmw-result", "the last arriver is not decided by comparing the result of the arrival fetch_add with thread_count_", arrive[0]))
-        else:
-            # the completion work belongs to the arriver whose result equals thread_count_ only
-            cb = None
-            for bid, blk in g.blocks.items():
-                els = g.elements(bid)
-                if len(blk.get("succ", [])) == 2 and els and isinstance(els[-1], int) and fn.byid(els[-1]) is not None and \
-                        any(y is par or y is strip_casts(par) for y in ir.walk(fn.byid(els[-1]))):
-                    cb = blk
-            if cb is None:
-                raise dtable.Undecidable("%s: branch on the arrival result not found" % fn.loc)
-            neg = cmpn[0] == "!="
-            cn = fn.byid(g.elements(cb["id"])[-1])
-            while cn is not None and strip_casts(cn) is not strip_casts(par) and cn["k"] in ("ParenExpr", "UnaryOperator", "ImplicitCastExpr"):
-                if cn["k"] == "UnaryOperator" and cn.get("op") == "!":
-                    neg = not neg
-                cn = kids(cn)[0]
-            others = cb["succ"][0] if neg else cb["succ"][1]
-            seen_, work_ = set(), [others]
-            relb = G_rel = None
-            tgt_blocks = set()
-            if hfn is None:
-                tgt_blocks = {g.pos(release[0])[0], g.pos(reset[0])[0]}
-            else:
-                tgt_blocks = {g.pos_deep(hcall)[0]}
-            leak = False
-            while work_:
-                b_ = work_.pop()
-                if b_ in seen_ or b_ is None:
-                    continue
-                seen_.add(b_)
-                if b_ in tgt_blocks:
-                    leak = True
-                    break
-                work_.extend(g.succ[b_])
-            if leak:
-                bad.append(("rmw-result", "an arriver whose fetch_add result differs from thread_count_ can reach the reset / release of the generation", arrive[0]))
-        G2 = hg if hfn is not None else g
-        if not (G2.dominates(G2.pos(reset[0]), G2.pos(release[0])) and G2.dominates(G2.pos(lam[0]), G2.pos(release[0]))):
-            bad.append(("release-order", "the generation counter is advanced (releasing the spinners) before the arrival counter was reset and the action has run", release[0]))
-        if not g.dominates(P(arrive[0]), g.pos_deep(hcall) if hfn is not None else P(lam[0])):
-            bad.append(("action-early", "the action runs before the arrival was counted", lam[0]))
-        ro = atomic_op(release[0])[2]
-        so = atomic_op(spin[0])[2]
-        if ro is None or ro not in (3, 4, 5):
-            bad.append(("release-memorder", "the releasing increment of step_ uses memory order %s (needs release or stronger)" % ORDER.get(ro, "?"), release[0]))
-        if so is None or so not in (2, 4, 5, 1):
-            bad.append(("spin-memorder", "the spinning load of step_ uses memory order %s (needs acquire or stronger)" % ORDER.get(so, "?"), spin[0]))
-        ao = atomic_op(arrive[0])[2]
-        if ao is None or ao < 4:
-            bad.append(("arrive-memorder", "the arrival fetch_add uses memory order %s (needs acq_rel)" % ORDER.get(ao, "?"), arrive[0]))
-        # spinners compare with their snapshot
-        sp = fn.parent(spin[0])
-        while sp is not None and sp["k"] == "ImplicitCastExpr":
-            sp = fn.parent(sp)
-        cs = match.binop(sp, ("==", "!=")) if sp is not None else None
-        snapvar = fn.parent(snap[0])["did"]
-        if not (cs and snapvar in (ref_of(cs[1]), ref_of(cs[2]))):
-            bad.append(("spin-snapshot", "waiters do not spin on their own snapshot of the generation", spin[0]))
-        for sig, msg, node in bad:
-            ck.violation("SPIN-ORDER", fn.qname, "%s:%s" % (fn.name, sig), msg, fn.nloc(node))
-        if not bad:
-            ck.ok("SPIN-ORDER", tag, "snapshot -> arrival RMW decides last -> reset + action -> release (>= release) ; spin (acquire) on the snapshot")
-        skel[(fn.name, "lambda" in fn.full)] = (not bad,)
+
+        def schedule(n, trigger, preempt=False, fn=fn):
+            def go():
+                w = SpinWorld(tu, fn, n, roles["count"], tcount[n], roles["atomics"], trigger, preempt)
+                for g in range(2):
+                    w.gen = g
+                    w.generation()
+                    if preempt:
+                        break
+            return go
+        variants = [schedule(n, tr) for n in THREADS for tr in (0, 1, 3)] + [schedule(n, tr, True) for n in THREADS[1:] for tr in (0, 1)]
+        run_barrier(ck, "SPIN-ORDER", fn, tag, variants,
+                    "1-3 threads x 2 generations x 5 schedules: arrival RMW decides last -> reset + action -> release (>= release) ; spin (acquire) on a snapshot taken before arrival")
+
+
+# ------------------------------------------------------------------------------------------------ ThreadBarrierMutex
+COUNTS_BASE = 1000
+
+
+class MutexWorld(BarrierWorld):
+    def __init__(self, tu, fn, n, roles, tcount, spurious, ls=None):
+        BarrierWorld.__init__(self, tu, fn, "ThreadBarrierMutex", n)
+        self.ls = ls
+        self.shared[("field", roles["count"])] = tcount
+        self.shared[("field", roles["counts"])] = COUNTS_BASE
+        self.shared[("mem", COUNTS_BASE)] = 0
+        self.shared[("mem", COUNTS_BASE + 1)] = 0
+        self.step_key = ("field", roles["step"])
+        self.shared[self.step_key] = 0
+        self.names = {"thread_count_": roles["count"], "counts_": roles["counts"], "step_": roles["step"], "mutex_": roles["mutex"]}
+        self.spurious = spurious
+        self.sched = ", one wake-up without notify per waiter" if spurious else ""
+
+    def begin(self):
+        BarrierWorld.begin(self)
+        self.waiting = set()
+        self.woken = set()
+        self.was_woken = set()
+        self.spur_done = set()
+
+    def state(self):
+        return "counts_=[%s, %s], step_=%s" % (self.shared[("mem", COUNTS_BASE)], self.shared[("mem", COUNTS_BASE + 1)], self.shared[self.step_key])
+
+    def block(self, sk, e):
+        t = self.stack[-1]
+        if self.spurious and t not in self.spur_done:
+            self.spur_done.add(t)
+            return                     # woken without notify, nothing changed
+        self.waiting.add(t)
+        while t not in self.woken and self.started < self.N:
+            self.run_thread()          # the mutex is free while t sleeps: the next thread enters
+        if t not in self.woken:
+            if t in self.was_woken:
+                self.cex("wait-pred", "waiters do not wait for counts_[their generation] to reach thread_count_: thread %d was notified after the last arrival, "
+                         "re-tests its condition and blocks again with nobody left to wake it (%s) - it tests a counter that was reset or that of the "
+                         "other generation" % (t + 1, self.state()), sk, e)
+            if any(k == "notify_one" for k in self.notified):
+                self.cex("notify-kind", "waiters are released with notify_one: all but one stay blocked (thread %d is never woken)" % (t + 1), sk, e)
+            if not self.notified:
+                self.cex("no-notify", "all %d threads have entered, thread %d sleeps on the condition variable and nobody notifies (%s)" % (self.N, t + 1, self.state()), sk, e)
+            self.cex("lost-wakeup", "thread %d goes to sleep after the notify of its generation was sent (%s)" % (t + 1, self.state()), sk, e)
+        self.woken.discard(t)
+        self.waiting.discard(t)
+        self.was_woken.add(t)
+
+    def held(self, sk, e, what):
+        if self.ls is not None and sk.fn.did in self.ls.flows and self.ls.status(sk.fn, e) is not True:
+            self.cex("unlocked:" + what, "mutex_ is released before the action has run: released threads can overtake it" if what == "action" else
+                     "the %s happens without mutex_ held" % what, sk, e)
+
+    def on_notify(self, sk, e, kind):
+        self.held(sk, e, "notify")
+        self.notified.append(kind)
+        if kind == "notify_all":
+            self.woken |= self.waiting
+        elif self.waiting - self.woken:
+            self.woken.add(max(self.waiting - self.woken))
+
+    def on_action(self, sk, e):
+        self.held(sk, e, "action")
+        if self.started < self.N:
+            self.cex("action-early", "the action can run before the last participant has arrived: it runs with %d of %d threads inside (%s)"
+                     % (self.started, self.N, self.state()), sk, e)
+        self.action_runs += 1
+        if self.action_runs > 1:
+            self.cex("action-twice", "the action runs %d times in one generation (%s)" % (self.action_runs, self.state()), sk, e)
+
+    def on_return(self, sk, t):
+        if self.started < self.N or self.action_runs != 1:
+            self.cex("bare-wait", "waiters do not re-check in a loop: thread %d leaves the barrier with %d of %d threads inside and the action run %d times (%s)"
+                     % (t + 1, self.started, self.N, self.action_runs, self.state()), sk)
+
+    def on_atomic(self, sk, e, f, kind, order, newval, result):
+        raise dtable.Undecidable("%s: atomic in the mutex barrier" % sk.here(e))
 
 
 def check_mutex_barrier(ck, tu):
-    fns = [f for f in tu.find(record=BM) if f.name == "wait"]
-    ck.require(fns, "ThreadBarrierMutex::wait not instantiated")
+    fns = [f for f in tu.find(record=BM) if f.name in ("wait", "wait_yield") and f.body is not None]
+    ck.require(any(f.name == "wait" for f in fns), "ThreadBarrierMutex::wait not instantiated")
+    roles = field_roles(tu, BM, {"count": (_const_uint, 1), "counts": (_uint_pair, 1), "step": (_uint, 1), "mutex": (_mutex, 1)})
+    tcount = {n: ctor_field(tu, BM, roles["count"], n) for n in THREADS}
+    names = {"mutex_": roles["mutex"]}
+    ls = LockSet(tu, BM, fns, roles["mutex"])
+    # everything the barrier does to its state happens in one hold of mutex_: that is what lets the model run a thread
+    # from one cv wait to the next without interleaving
+    unlocked = {}
+    for fn in ls.fns:
+        for x in fn.nodes():
+            what = None
+            if x["k"] == "MemberExpr" and match.this_field(x) in (roles["step"], roles["counts"]):
+                what = "access of %s" % x["member"]
+            elif "callee" in x and x.get("op") == "()" and kids(x) and ref_of(kids(x)[0]) is not None and fn.param_index(ref_of(kids(x)[0])) is not None:
+                what = "action"
+            elif "callee" in x and x["callee"]["name"] in ("notify_one", "notify_all") and "condition_variable" in (x["callee"].get("record") or ""):
+                what = "notify"
+            if what and ls.status(fn, x) is not True:
+                unlocked.setdefault(fn.did, []).append((what, x, fn))
     for fn in fns:
-        fl = sync.LockFlow(fn, "mutex_")
-        g = fl.g
         tag = "%s<%s>" % (fn.qname, "lambda" if "lambda" in fn.full else "default")
-        bad = []
-        snap = [x for x in fn.nodes() if x["k"] == "VarDecl" and kids(x) and match.this_field(kids(x)[0]) == "step_"]
-        if len(snap) != 1:
-            raise dtable.Undecidable("%s: generation snapshot not found" % fn.loc)
-        cur = snap[0]["did"]
+        if fn.name == "wait_yield":
+            tag = fn.qname + " (forward)"
+        bad = False
+        reach = {fn.did}
+        work = [fn]
+        while work:
+            f = work.pop()
+            for x in f.nodes():
+                if "callee" in x and x.get("member_call") and x["callee"].get("did") in ls.flows and x["callee"]["did"] not in reach:
+                    reach.add(x["callee"]["did"])
+                    work.append(tu.by_did[x["callee"]["did"]])
+        seen = set()
+        for did in sorted(reach):
+            for what, x, f in unlocked.get(did, []):
+                sig = "unlocked:" + what.replace(" ", "-")
+                if (sig, x["id"]) in seen:
+                    continue
+                seen.add((sig, x["id"]))
+                bad = True
+                msg = "mutex_ is released before the action has run: released threads can overtake it" if what == "action" else \
+                    "the %s happens without mutex_ held" % what
+                ck.violation("BARRIER-ORDER", fn.qname, "%s:%s" % (fn.name, sig), renamed(msg, names), f.nloc(x))
+        if bad:
+            continue
 
-        def counts_index(e):
-            p = match.index_parts(e)
-            if p and match.this_field(p[0]) == "counts_":
-                return p[1]
-            return None
-        def arrive_target(x):
-            u = match.unop(x, ("++",))
-            if u:
-                return u[1]
-            b_ = match.binop(x, ("+=",)) if x["k"] in ("CompoundAssignOperator", "CXXOperatorCallExpr") else None
-            if b_ and const_int(b_[2]) == 1:
-                return b_[1]
-            return None
-        arrive = [x for x in fn.nodes() if arrive_target(x) is not None and counts_index(arrive_target(x)) is not None]
-        resets = [x for x in fn.nodes() if match.binop(x, ("=",)) and counts_index(match.binop(x, ("=",))[1]) is not None]
-        flips = [x for x in fn.nodes() if match.binop(x, ("=",)) and match.this_field(match.binop(x, ("=",))[1]) == "step_"]
-        lam = [x for x in fn.nodes() if "callee" in x and x.get("op") == "()" and kids(x) and ref_of(kids(x)[0]) == fn.params[0]["did"]]
-        notes = sync.notify_calls(fn)
-        waits = sync.wait_calls(fn)
-        if not (len(arrive) == 1 and len(resets) == 1 and len(flips) >= 1 and len(lam) == 1 and len(notes) == 1 and len(waits) == 1):
-            raise dtable.Undecidable("%s: barrier skeleton not recognised" % fn.loc)
-        P = g.pos_deep
-        if ref_of(counts_index(arrive_target(arrive[0]))) != cur:
-            bad.append(("arrive-index", "arrival is not counted in the generation that was sampled", arrive[0]))
-        if not g.dominates(P(snap[0]), P(arrive[0])):
-            bad.append(("snapshot", "the generation is sampled after arriving", snap[0]))
-        # waiters re-check counts_[current] against thread_count_: either `while (stay) cv.wait(lock)` or cv.wait(lock, proceed)
-        w = waits[0]
-        stay = proceed = None
-        if w["pred"] is not None:
-            lf = tu.by_did.get(w["pred"].get("fn"))
-            if lf is None or lf.body is None:
-                raise dtable.Undecidable("%s: body of the wait predicate not available" % fn.loc)
-            rets = [r for r in walk(lf.body) if r["k"] == "ReturnStmt" and kids(r)]
-            if len(rets) != 1:
-                raise dtable.Undecidable("%s: wait predicate with %d return statements" % (fn.loc, len(rets)))
-            proceed = kids(rets[0])[0]
+        def schedule(n, spurious, fn=fn):
+            def go():
+                w = MutexWorld(tu, fn, n, roles, tcount[n], spurious, ls)
+                for g in range(3):
+                    w.gen = g
+                    w.generation()
+            return go
+        run_barrier(ck, "BARRIER-ORDER", fn, tag, [schedule(n, sp) for n in THREADS for sp in (False, True)],
+                    "1-3 threads x 3 generations, with and without spurious wake-ups: nobody leaves before all entered, action once by the last, "
+                    "all woken, counters reusable; all in one hold of mutex_")
+
+
+def extract_as_written(src):
+    """the evaluation follows new helpers, const locals and reference aliases itself, so the tree is taken as written; the
+    rewriting of engine/normalize.py is not needed and one of its rewrites is wrong for this code: a reference alias
+    `size_t& arrived = counts_[generation]` with `generation = step_` is replaced by counts_[step_] also after cv_.wait(),
+    where other threads have changed step_"""
+    old = os.environ.get("VERIF_NO_NORMALIZE")
+    os.environ["VERIF_NO_NORMALIZE"] = "1"
+    try:
+        return ir.extract(src)
+    finally:
+        if old is None:
+            del os.environ["VERIF_NO_NORMALIZE"]
         else:
-            loop = fn.parent(w["node"])
-            while loop is not None and loop["k"] not in ("WhileStmt", "DoStmt", "ForStmt"):
-                loop = fn.parent(loop)
-            if loop is not None:
-                stay = match.loop_parts(loop)[1]
-        if stay is None and proceed is None:
-            bad.append(("bare-wait", "waiters do not re-check in a loop", w["node"]))
-        else:
-            c = stay if stay is not None else proceed
-            neg = False
-            c0 = strip_casts(c)
-            while c0 is not None and (c0["k"] == "ParenExpr" or (c0["k"] == "UnaryOperator" and c0.get("op") == "!")):
-                if c0["k"] == "UnaryOperator":
-                    neg = not neg
-                c0 = strip_casts(kids(c0)[0])
-            b = match.binop(c0, ("<", "!=", ">=", "==", ">", "<="))
-            ok_pred = False
-            if b:
-                op, l, r = b
-                if counts_index(r) is not None:
-                    l, r = r, l
-                    op = {"<": ">", ">": "<", "<=": ">=", ">=": "<=", "==": "==", "!=": "!="}[op]
-                if counts_index(l) is not None and ref_of(counts_index(l)) == cur and match.this_field(r) == "thread_count_":
-                    # counts_ <= thread_count_ always; "stay" forms: < !=   "proceed" forms: >= ==
-                    is_stay = (op in ("<", "!=")) != neg
-                    is_proceed = (op in (">=", "==")) != neg
-                    if op in ("<", "!=", ">=", "=="):
-                        ok_pred = is_stay if stay is not None else is_proceed
-            if not ok_pred:
-                bad.append(("wait-pred", "waiters do not wait for counts_[their generation] to reach thread_count_", c))
-        # last arriver: flip, reset the OTHER counter, action, notify_all - all in one hold, in dominance order
-        ri = counts_index(match.binop(resets[0], ("=",))[1])
-        if ref_of(ri) == cur or (match.this_field(ri) == "step_" and g.path_from_entry_avoiding(P(resets[0]), [P(f_) for f_ in flips]) is not None):
-            bad.append(("reset-index", "the last arriver resets the counter of the generation its waiters are still testing: they block again", resets[0]))
-        for x, what in [(f_, "generation flip") for f_ in flips] + [(resets[0], "counter reset"), (lam[0], "action"), (notes[0]["node"], "notify")]:
-            if fl.held_at(x) is not True:
-                bad.append(("unlocked:" + what.replace(" ", "-"), "the %s happens without mutex_ held" % what, x))
-        if notes[0]["kind"] != "notify_all":
-            bad.append(("notify-kind", "waiters are released with notify_one: all but one stay blocked", notes[0]["node"]))
-        if not (g.dominates(P(arrive[0]), P(lam[0]))):
-            bad.append(("action-early", "the action can run before the last participant has arrived", lam[0]))
-        unl = [u for u in fn.nodes() if "callee" in u and u["callee"]["name"] == "unlock"]
-        if any(g.pos(u) and g.dominates(g.pos(u), P(lam[0])) for u in unl):
-            bad.append(("action-unlocked", "mutex_ is released before the action has run: released threads can overtake it", lam[0]))
-        # the branch condition: last iff counts_[current] reached thread_count_
-        for sig, msg, node in bad:
-            ck.violation("BARRIER-ORDER", fn.qname, "wait:" + sig, msg, fn.nloc(node))
-        if not bad:
-            ck.ok("BARRIER-ORDER", tag, "snapshot -> arrive -> (wait loop on own generation | flip, reset other counter, action, notify_all) in one hold of mutex_")
-    wy = [f for f in tu.find(record=BM) if f.name == "wait_yield"]
-    for fn in wy:
-        calls = [x for x in fn.nodes() if "callee" in x and x["callee"]["name"] == "wait" and x.get("member_call")]
-        if len(calls) == 1 and ref_of(kids(calls[0])[1]) == fn.params[0]["did"]:
-            ck.ok("BARRIER-ORDER", fn.qname + " (forward)", "wait_yield forwards the action to wait()", nontrivial=False)
-        else:
-            ck.violation("BARRIER-ORDER", fn.qname, "wait_yield:forward", "wait_yield does not forward to wait(action)", fn.loc)
+            os.environ["VERIF_NO_NORMALIZE"] = old
 
 
 def run(ck):
     ck.explanation = (
-        "Semaphore: lock-state dataflow shows value_ is only touched under mutex_, every decrement is dominated in the same hold by the test "
-        "value_ >= delta + slack of the same parameters, waits re-check in a loop, token-adding writes are followed by a notify, and - because the "
-        "waiters' predicate depends on per-call (delta, slack) - that notify must be notify_all. Barriers: ordering rules by CFG dominance: generation "
-        "snapshot before arrival, last arriver decided by the arrival RMW's own result, reset of the arrival counter and the action both dominate the "
-        "release of the generation, memory orders of release/spin at least release/acquire, mutex barrier does everything in one lock hold and resets "
-        "the other generation's counter. Liveness over all schedules is not decided.")
-    tu = ir.extract("witness/C11_sync.cpp")
-    check_semaphore(ck, tu)
-    check_mutex_barrier(ck, tu)
-    check_spin(ck, tu)
-    ck.floor("SEM-LOCKSET", 4)
+        "Semaphore: lock-state dataflow shows value_ is only touched under mutex_ (private helpers inherit the state of their call sites). The member "
+        "functions are then evaluated on a grid of (value_, delta, slack) with an environment that changes value_ whenever mutex_ is given up: every "
+        "decrement by delta happens at value_ >= delta + slack, a wake-up that changed nothing leads to another wait, token-adding writes are followed "
+        "by a notify, and - because the evaluated decisions to block depend on per-call (delta, slack) - that notify must be notify_all. Barriers: one to three "
+        "model threads run the member function itself one after the other, handing over where a thread blocks (cv wait / spin load); observed per "
+        "generation: nobody leaves before all arrived, the action runs once, by the last arriver, before the release; the arrival counter is reset before "
+        "the release; arrivals/releases/spins use at least acq_rel/release/acquire; a late sampler or a stale counter shows as a thread that never "
+        "leaves. Schedules other than the evaluated ones and more than 3 threads are not decided.")
+    ck.assumptions.append("barrier models start from zero-initialised counters (the default member initialisers of the tlx headers)")
+    tu = extract_as_written("witness/C11_sync.cpp")
+    ck.guarded(lambda: check_semaphore(ck, tu))
+    ck.guarded(lambda: check_mutex_barrier(ck, tu))
+    ck.guarded(lambda: check_spin(ck, tu))
+    ck.floor("SEM-LOCKSET", 2)        # per access of the value field; how many there are is up to the code (helpers, cached reads)
     ck.floor("SEM-GUARDED-TAKE", 2)
     ck.floor("NO-BARE-WAIT", 1)
     ck.floor("WRITE-NOTIFY", 1)
